@@ -22,10 +22,12 @@ from gen import core  # noqa: E402
 CHECKS = {
     "C03": "gen.c03",
     "C04": "gen.c04",
+    "C05": "gen.c05",
     "C06": "gen.c06",
     "C07": "gen.c07",
     "C11": "gen.c11",
     "C15": "gen.c15",
+    "C20": "gen.c20",
 }
 
 
